@@ -50,6 +50,15 @@ type action struct {
 	StopIdx  int   `json:"stop_idx,omitempty"`  // shell index in Shells to SIGSTOP (-1 none)
 	StopAtMs int   `json:"stop_at_ms,omitempty"`
 	StopForM int   `json:"stop_for_ms,omitempty"`
+	// Hold: this shell (started under strace, which stops it with SIGSTOP right
+	// after its first connect returned, i.e. before the os.Remove of the stale socket) is released
+	// first; the others run only once it is held, and it is continued when they
+	// have finished.  0 = nobody (shell 0 is never the held one).
+	Hold int `json:"hold,omitempty"`
+	// HoldOld: the outdated daemon (started under strace, which stops it right after
+	// its first unlinkat = the os.Remove of its exit path) is continued as soon as
+	// the successor daemon listens.
+	HoldOld bool `json:"hold_old,omitempty"`
 }
 
 type plan struct {
@@ -112,7 +121,7 @@ func (w *world) startShell(idx int, strace string) (*shell, error) {
 		if err != nil {
 			return nil, err
 		}
-		args := append(strings.Fields(strace), w.exe)
+		args := append(strings.Fields(strings.ReplaceAll(strace, "@LOG@", filepath.Join(w.dir, fmt.Sprintf("strace-%d.log", idx)))), w.exe)
 		cmd = exec.Command(st, args...)
 	} else {
 		cmd = exec.Command(w.exe)
@@ -428,7 +437,8 @@ func runPlan(scratch string, i int, exe, elvishVer string, p plan) (d desc, coq 
 			if err != nil {
 				return fail("no strace")
 			}
-			w.old = exec.Command(st, append(append(strings.Fields(p.StraceOld), w.exe), args...)...)
+			spec := strings.ReplaceAll(p.StraceOld, "@LOG@", filepath.Join(w.dir, "strace-old.log"))
+			w.old = exec.Command(st, append(append(strings.Fields(spec), w.exe), args...)...)
 		} else {
 			w.old = exec.Command(w.exe, args...)
 		}
@@ -471,8 +481,20 @@ func runPlan(scratch string, i int, exe, elvishVer string, p plan) (d desc, coq 
 		switch a.K {
 		case "acts":
 			var wg sync.WaitGroup
+			holdPid := 0
+			if a.Hold > 0 {
+				hs := w.shells[a.Hold]
+				hs.send("go")
+				holdPid = waitHeld(hs.cmd.Process.Pid, filepath.Join(w.dir, fmt.Sprintf("strace-%d.log", a.Hold)), 40*time.Second)
+				if holdPid == 0 {
+					d.Note = "held shell did not reach its os.Remove (it saw no stale socket?)"
+				}
+			}
 			for k, s := range a.Shells {
 				sh := w.shells[s]
+				if a.Hold > 0 && s == a.Hold {
+					continue
+				}
 				delay := 0
 				if k < len(a.JitterMs) {
 					delay = a.JitterMs[k]
@@ -485,12 +507,40 @@ func runPlan(scratch string, i int, exe, elvishVer string, p plan) (d desc, coq 
 					sh.awaitResult(time.Duration(w.timeoutMs)*3*time.Millisecond + 60*time.Second)
 				}()
 			}
-			if len(a.Shells) > 1 && a.StopIdx >= 0 && a.StopIdx < len(a.Shells) && a.StopForM > 0 {
+			if a.Hold == 0 && len(a.Shells) > 1 && a.StopIdx >= 0 && a.StopIdx < len(a.Shells) && a.StopForM > 0 {
 				sh := w.shells[a.Shells[a.StopIdx]]
 				time.Sleep(time.Duration(a.StopAtMs) * time.Millisecond)
 				syscall.Kill(sh.cmd.Process.Pid, syscall.SIGSTOP)
 				time.Sleep(time.Duration(a.StopForM) * time.Millisecond)
 				syscall.Kill(sh.cmd.Process.Pid, syscall.SIGCONT)
+			}
+			if a.HoldOld && w.old != nil {
+				oldPid := waitHeld(w.old.Process.Pid, filepath.Join(w.dir, "strace-old.log"), 40*time.Second)
+				if oldPid == 0 {
+					d.Note = "outdated daemon was not held after its os.Remove"
+				} else {
+					// wait until the successor has bound the path, then let the old daemon finish
+					for t0 := time.Now(); time.Since(t0) < 30*time.Second; time.Sleep(20 * time.Millisecond) {
+						o, err := observe(w.sock, w.db)
+						n := 0
+						for _, dd := range o.Daemons {
+							if dd.Listening {
+								n++
+							}
+						}
+						if err == nil && n >= 2 && o.Exists {
+							break
+						}
+					}
+					syscall.Kill(oldPid, syscall.SIGCONT)
+				}
+			}
+			if a.Hold > 0 {
+				wg.Wait()
+				if holdPid > 0 {
+					syscall.Kill(holdPid, syscall.SIGCONT)
+				}
+				w.shells[a.Hold].awaitResult(time.Duration(w.timeoutMs)*3*time.Millisecond + 60*time.Second)
 			}
 			wg.Wait()
 			for _, s := range a.Shells {
@@ -600,13 +650,73 @@ func fixedPlans() []plan {
 }
 
 // the recorded defect (DESIGN section 7 item 14), replayed deterministically: shell 1 is
-// held for a while right after its connect was refused (strace delay on the
-// exit of its first connect), i.e. between detectDaemon and os.Remove.
-func recipeStale(delayUs int) plan {
+// stopped (SIGSTOP injected by strace when its first connect returns, refused)
+// between detectDaemon = connectionRefused and os.Remove; shell 0 then activates
+// completely; shell 1 is continued.
+func recipeStale() plan {
 	return plan{Name: "recipe-concurrent-stale", Class: "concurrent-activation-stale-socket", N: 2, Stale: true, Corr: true,
-		StraceShell: map[int]string{1: fmt.Sprintf("-f -q -o /dev/null -e trace=connect -e inject=connect:delay_exit=%d:when=1", delayUs)},
-		Actions: []action{{K: "acts", Shells: []int{1, 0}, JitterMs: []int{0, 600}, StopIdx: -1},
+		StraceShell: map[int]string{1: "-f -b execve -q -o @LOG@ -e trace=connect -e inject=connect:signal=SIGSTOP:when=1"},
+		Actions: []action{{K: "acts", Shells: []int{1, 0}, StopIdx: -1, Hold: 1},
 			leave(0), leave(1)}}
+}
+
+// the second unlink of Serve's exit path (listener.Close), replayed with an
+// outdated daemon and ONE shell: the old daemon is stopped right after its
+// os.Remove; the shell sees the path gone and spawns the successor; once the
+// successor listens the old daemon continues: st.Close, listener.Close = unlink.
+func recipeUpgrade() plan {
+	return plan{Name: "recipe-upgrade-second-unlink", Class: "upgrade-old-daemon-second-unlink", N: 2, Old: true, Corr: true,
+		StraceOld: "-f -b execve -q -o @LOG@ -e trace=unlinkat -e inject=unlinkat:signal=SIGSTOP:when=1",
+		Actions:   []action{{K: "acts", Shells: []int{0}, StopIdx: -1, HoldOld: true}, acts(1), leave(0), leave(1)}}
+}
+
+// waitHeld waits until strace reports that the process it traces (child of
+// strace process spid) was stopped by the injected SIGSTOP, and returns its pid
+// (0 on timeout).  The signal is delivered when the syscall returns.
+func waitHeld(spid int, log string, d time.Duration) int {
+	deadline := time.Now().Add(d)
+	for time.Now().Before(deadline) {
+		if b, err := os.ReadFile(log); err == nil && strings.Contains(string(b), "stopped by SIGSTOP") {
+			if pid := childOf(spid); pid > 0 && stoppedState(pid) {
+				return pid
+			}
+		}
+		time.Sleep(25 * time.Millisecond)
+	}
+	return 0
+}
+
+func statFields(pid int) []string {
+	b, err := os.ReadFile(fmt.Sprintf("/proc/%d/stat", pid))
+	if err != nil {
+		return nil
+	}
+	s := string(b)
+	i := strings.LastIndexByte(s, ')')
+	if i < 0 {
+		return nil
+	}
+	return strings.Fields(s[i+1:]) // state ppid ...
+}
+
+func stoppedState(pid int) bool {
+	f := statFields(pid)
+	return len(f) > 0 && (f[0] == "T" || f[0] == "t")
+}
+
+func childOf(ppid int) int {
+	ents, _ := os.ReadDir("/proc")
+	for _, e := range ents {
+		pid, err := strconv.Atoi(e.Name())
+		if err != nil {
+			continue
+		}
+		f := statFields(pid)
+		if len(f) > 1 && f[1] == strconv.Itoa(ppid) {
+			return pid
+		}
+	}
+	return 0
 }
 
 func randomPlan(c *reg.Ctx) plan {
@@ -702,7 +812,7 @@ func run(c *reg.Ctx) {
 
 	plans := fixedPlans()
 	if _, err := lookStrace(); err == nil {
-		plans = append(plans, recipeStale(2500000))
+		plans = append(plans, recipeStale(), recipeUpgrade())
 	}
 	for i := 0; i < c.N; i++ {
 		plans = append(plans, randomPlan(c))
